@@ -125,6 +125,18 @@ def h_E(ctx, kind, nr, npr, nts, zpe):
         ctx.eq('delta_EoRT(act)', rxn.get_delta_EoRT(act=True, include_ZPE=zpe, **kw), t - r)
         ctx.eq('delta_EoRT(act) - delta_EoRT(act,rev) = delta',
                rxn.get_delta_EoRT(act=True, include_ZPE=zpe, **kw) - rxn.get_delta_EoRT(act=True, rev=True, include_ZPE=zpe, **kw), p - r)
+    # the energy in units is the same weighted sum (x R T)
+    from pmutt import constants as c
+    RT = c.R('kJ/mol/K') * T
+    ctx.eq('E_state(reactants, kJ/mol) = sum nu E', rxn.get_E_state(state='reactants', units='kJ/mol', include_ZPE=zpe, **kw), r * RT)
+    ctx.eq('E_state(products, kJ/mol) = sum nu E', rxn.get_E_state(state='products', units='kJ/mol', include_ZPE=zpe, **kw), p * RT)
+    ctx.eq('delta_E(kJ/mol) = E(products) - E(reactants)', rxn.get_delta_E(units='kJ/mol', include_ZPE=zpe, **kw), (p - r) * RT)
+    ctx.eq('delta_E(kJ/mol, rev) = -delta_E', rxn.get_delta_E(units='kJ/mol', rev=True, include_ZPE=zpe, **kw), (r - p) * RT)
+    if nts:
+        ctx.eq('E_state(transition state, kJ/mol) = sum nu E', rxn.get_E_state(state='transition state', units='kJ/mol', include_ZPE=zpe, **kw), t * RT)
+        ctx.eq('delta_E(kJ/mol, act) = E(TS) - E(reactants)', rxn.get_delta_E(units='kJ/mol', act=True, include_ZPE=zpe, **kw), (t - r) * RT)
+        ctx.eq('delta_E(kJ/mol, act, rev) = E(TS) - E(products)', rxn.get_delta_E(units='kJ/mol', act=True, rev=True, include_ZPE=zpe, **kw), (t - p) * RT)
+        # (get_E_act / get_EoRT_act are Arrhenius activation energies derived from the enthalpy, not electronic energies: C09)
 
 
 def _prod(ctx, side, T, P, blocks):
